@@ -41,9 +41,9 @@ func init() {
 }
 
 type c03cred struct {
-	user, realm, pass, nonce string
+	user, realm, pass, nonce               string
 	omitUser, omitRealm, omitNonce, omitMI bool
-	hmacMut func([]byte) []byte
+	hmacMut                                func([]byte) []byte
 }
 
 func c03Build(method uint16, tid [12]byte, attrs func(b *wire.Builder), cr c03cred) []byte {
@@ -128,11 +128,11 @@ func mutateString(rng *rand.Rand, s string, alphabet string) string {
 }
 
 type c03 struct {
-	t   *testing.T
-	w   *sim.World
-	m   *sim.Model
-	rng *rand.Rand
-	rec *sim.Rec
+	t              *testing.T
+	w              *sim.World
+	m              *sim.Model
+	rng            *rand.Rand
+	rec            *sim.Rec
 	controlRefresh bool
 }
 
@@ -200,7 +200,7 @@ func runC03A(t *testing.T, rng *rand.Rand, rec *sim.Rec, tier string, caseNo int
 	noAuth := caseNo%23 == 22
 	cfg := sim.Config{
 		Realm: "verif.test", Users: map[string]string{"alice": "pw-a", "bob": "pw-b"}, NoAuth: noAuth,
-		Lifetime:     26 * time.Hour, PermTimeout: 26 * time.Hour, ChanTimeout: 26 * time.Hour,
+		Lifetime: 26 * time.Hour, PermTimeout: 26 * time.Hour, ChanTimeout: 26 * time.Hour,
 		UDPListeners: []*net.UDPAddr{{IP: sim.ServerIP4, Port: 3478}},
 	}
 	w, err := sim.NewWorld(cfg, rec, rng, true)
@@ -332,7 +332,7 @@ func runC03A(t *testing.T, rng *rand.Rand, rec *sim.Rec, tier string, caseNo int
 			}
 		case "wrong-realm":
 			cr.realm = "other.realm" // the key is derived from the presented realm: alice's password still signs it
-			valid = true                // ...so this is a sound credential for (alice, other.realm) as far as the statement goes
+			valid = true             // ...so this is a sound credential for (alice, other.realm) as far as the statement goes
 		case "empty-user":
 			cr.user = ""
 		}
